@@ -214,5 +214,101 @@ fn read_u64(reader: &mut Reader) -> (result: u64)
                 debug_assert!(read_something);
                 result
 }
+
+// signed tokens:  '-' digits | digits
+pub open spec fn i64_token_ok(s: Seq<u8>) -> bool {
+    let t = skip_ws(s); let n = tok_len(t) as int;
+    n > 0 && (if t[0] == 0x2D {
+        n > 1 && all_dig(t.subrange(1, n)) && dval(t.subrange(1, n)) <= 0x8000_0000_0000_0000
+    } else {
+        all_dig(t.take(n)) && dval(t.take(n)) <= 0x7fff_ffff_ffff_ffff
+    })
+}
+pub open spec fn i64_token_val(s: Seq<u8>) -> int {
+    let t = skip_ws(s); let n = tok_len(t) as int;
+    if t[0] == 0x2D { -(dval(t.subrange(1, n)) as int) } else { dval(t.take(n)) as int }
+}
+fn read_i64(reader: &mut Reader) -> (result: i64)
+    requires old(reader).wf(), i64_token_ok(old(reader).unread()),
+    ensures final(reader).wf(),
+        result == i64_token_val(old(reader).unread()),
+        final(reader).unread() == skip_ws(old(reader).unread()).skip(tok_len(skip_ws(old(reader).unread())) as int),
+{
+                reader.skip_whitespace();
+                let ghost t = reader.unread();
+                let ghost n = tok_len(t) as int;
+                proof { lemma_tok_len_bound(t); assert(t.skip(0) =~= t); }
+                let mut result: i64 = 0;
+                let mut read_something = false;
+                if reader.peek() == b'-' {
+                    let ghost u = t.subrange(1, n);     // the digits
+                    let ghost mut k: int = 0;
+                    proof { reader.lemma_consume(); assert(u.take(0) =~= Seq::<u8>::empty()); }
+                    reader.begin += 1;
+                    while {
+                        if reader.begin == reader.end {
+                            reader.refill();
+                        }
+                        !reader.eof && !reader.peek().is_ascii_whitespace()
+                    }
+                        invariant reader.wf(), 0 <= k <= n - 1, reader.unread() == t.skip(k + 1), result == -(dval(u.take(k)) as int), read_something == (k > 0),
+                            n == tok_len(t), 1 <= n <= t.len(), u == t.subrange(1, n), all_dig(u), dval(u) <= 0x8000_0000_0000_0000,
+                            n < t.len() ==> ws(t[n]), forall|i: int| 0 <= i < n ==> !ws(#[trigger] t[i]),
+                        ensures reader.wf(), k == n - 1, reader.unread() == t.skip(k + 1), result == -(dval(u.take(k)) as int), read_something == (k > 0),
+                        decreases t.len() - k,
+                    {
+                        proof {
+                            reader.lemma_consume();
+                            assert(t.skip(k + 1)[0] == t[k + 1]);
+                            assert(k + 1 < n);
+                            assert(u[k] == t[k + 1]);
+                            assert(u.take(k + 1).drop_last() =~= u.take(k));
+                            assert(u.take(k + 1).last() == u[k]);
+                            lemma_dval_mono(u, k + 1);
+                            assert(t.skip(k + 1).skip(1) =~= t.skip(k + 2));
+                        }
+                        debug_assert!(reader.buf[reader.begin].is_ascii_digit());
+                        result = result * 10 - (reader.buf[reader.begin] - b'0') as i64;
+                        reader.begin += 1;
+                        read_something = true;
+                        proof { k = k + 1; }
+                    }
+                    proof { assert(u.take(n - 1) =~= u); }
+                } else {
+                    let ghost mut k: int = 0;
+                    proof { assert(t.take(0) =~= Seq::<u8>::empty()); }
+                    while {
+                        if reader.begin == reader.end {
+                            reader.refill();
+                        }
+                        !reader.eof && !reader.peek().is_ascii_whitespace()
+                    }
+                        invariant reader.wf(), 0 <= k <= n, reader.unread() == t.skip(k), result == dval(t.take(k)), read_something == (k > 0),
+                            n == tok_len(t), n <= t.len(), all_dig(t.take(n)), dval(t.take(n)) <= 0x7fff_ffff_ffff_ffff,
+                            n < t.len() ==> ws(t[n]), forall|i: int| 0 <= i < n ==> !ws(#[trigger] t[i]),
+                        ensures reader.wf(), k == n, reader.unread() == t.skip(k), result == dval(t.take(k)), read_something == (k > 0),
+                        decreases t.len() - k,
+                    {
+                        proof {
+                            reader.lemma_consume();
+                            assert(t.skip(k)[0] == t[k]);
+                            assert(k < n);
+                            assert(t.take(n)[k] == t[k]);
+                            assert(t.take(k + 1).drop_last() =~= t.take(k));
+                            assert(t.take(k + 1).last() == t[k]);
+                            assert(t.take(n).take(k + 1) =~= t.take(k + 1));
+                            lemma_dval_mono(t.take(n), k + 1);
+                            assert(t.skip(k).skip(1) =~= t.skip(k + 1));
+                        }
+                        debug_assert!(reader.buf[reader.begin].is_ascii_digit());
+                        result = result * 10 + (reader.buf[reader.begin] - b'0') as i64;
+                        reader.begin += 1;
+                        read_something = true;
+                        proof { k = k + 1; }
+                    }
+                }
+                debug_assert!(read_something);
+                result
+}
 } // verus!
 fn main() {}
